@@ -1,5 +1,5 @@
 import PdfModel.Lemmas.Build
-import PdfModel.Lemmas.Widths
+import PdfModel.Lemmas.XrefWidths
 
 /-!
 # C10 — documents built from scratch reload with the same pages and are valid PDF
